@@ -16,8 +16,7 @@
                            start_of i  (this is the statement c08_pruning_sound)
      gammas_ok_in i        every gate gamma of the request is >= 1 (true for kappa of every QPD basis: C15; monitored) *)
 From Coq Require Import QArith String.
-From CKT Require Import Model.CutFinder Proofs.BestFirstP Proofs.BestFirstSpec Proofs.BestFirstSpec4 Proofs.BestFirstFuel
-  Extracted.Facts.
+From CKT Require Import Model.CutFinder Proofs.BestFirstP Proofs.BestFirstSpec Proofs.BestFirstFuel Extracted.Facts.
 Close Scope Q_scope.
 
 (* ---- (1) every action multiplies gamma_UB by a factor >= 1 ---- *)
@@ -77,26 +76,29 @@ Theorem c08_flag_sound : forall fuel i r, gammas_ok_in i ->
   (md_overhead (fr_meta r) <= c * c)%Q.
 Proof. exact flag_sound_spec. Qed.
 
-(* c08_pruning_sound as a FINITE-DOMAIN theorem (complete enumeration inside Coq, Proofs/BestFirstSpec*.v): every
-   circuit up to qubit relabelling (qubits numbered in order of first use) with 1..4 two-qubit gates of gamma 3 or 7
-   on at most 4 qubits (idle qubits included) — 14 510 circuits —, every width limit 1..4, every cut-kind
+(* c08_pruning_sound as a FINITE-DOMAIN theorem (complete enumeration inside Coq, Proofs/BestFirstSpec.v): every
+   circuit up to qubit relabelling (qubits numbered in order of first use) with 1..3 two-qubit gates of gamma 3 or 7
+   on at most 4 qubits (idle qubits included) — 622 circuits —, every width limit 1..4, every cut-kind
    combination, every max_gamma, arbitrary instruction ids / gate names (lab).
+   The same statement for 1..4 gates (14 510 circuits) is proved in Proofs/BestFirstSpec4.v (pruning_sound_bounded4,
+   flag_sound_bounded4; ~4 CPU-minutes of vm_compute, closed under the global context) but kept OUT of this file's
+   cone because `coqchk` re-checks vm_compute casts ~18x slower (over an hour for that part).
    c08_pruning_sound_open (not proved; never contradicted by the brute-force oracle of harness/c08.py):
      forall gs gl wl W mg nq, gammas_ok gs -> (gl || wl = true) -> well-formed two-qubit gates on qubits < nq ->
        pruning_sound_for gs gl wl W mg nq.                                                                   *)
-Theorem c08_pruning_sound_bounded : forall lab c used, In (c, used) (circuits_upto 4 [3%Q; 7%Q] 4) ->
+Theorem c08_pruning_sound_bounded : forall lab c used, In (c, used) (circuits_upto 4 [3%Q; 7%Q] 3) ->
   forall nq W gl wl mg, used <= nq <= 4 -> 1 <= W <= 4 -> In (gl, wl) [(true, false); (false, true); (true, true)] ->
   pruning_sound_for (gates_from lab 0 c) gl wl W mg nq.
-Proof. exact pruning_sound_bounded. Qed.
+Proof. exact pruning_sound_bounded3. Qed.
 
 (* the two together: on the finite domain a reported minimum is the minimum of the SPECIFICATION *)
-Theorem c08_flag_sound_bounded : forall fuel i r lab c used, In (c, used) (circuits_upto 4 [3%Q; 7%Q] 4) ->
+Theorem c08_flag_sound_bounded : forall fuel i r lab c used, In (c, used) (circuits_upto 4 [3%Q; 7%Q] 3) ->
   fa_gates (fa_of i) = gates_from lab 0 c -> used <= nq_of i <= 4 -> 1 <= fi_W i <= 4 ->
   In (fi_gate_lo i, fi_wire_lo i) [(true, false); (false, true); (true, true)] ->
   find_cuts_full fuel i = Val r -> md_minimum_reached (fr_meta r) = true ->
   forall A k, assignment_cost (nq_of i) (fi_W i) (fi_gate_lo i) (fi_wire_lo i) (sgates_of (fa_gates (fa_of i))) A = Some k ->
   (md_overhead (fr_meta r) <= k * k)%Q.
-Proof. exact flag_sound_bounded. Qed.
+Proof. exact flag_sound_bounded3. Qed.
 
 (* ---- (4) the unrestricted search ---- *)
 (* no backjump limit and max_gamma at least the optimum of the search space: the flag is set *)
@@ -151,7 +153,7 @@ Proof.
   intros g Ig q Eq. vm_compute in Ig. destruct Ig as [<-|[<-|[]]]; cbn in Eq; injection Eq as <-; discriminate.
 Qed.
 
-Example c08_ex_domain : In ([(0, 1, 3%Q); (1, 2, 7%Q)], 3) (circuits_upto 4 [3%Q; 7%Q] 4) /\
+Example c08_ex_domain : In ([(0, 1, 3%Q); (1, 2, 7%Q)], 3) (circuits_upto 4 [3%Q; 7%Q] 3) /\
   fa_gates (fa_of (f3_input 3 (fun _ => 0%Q))) = gates_from (fun k => (k, 2 + k)) 0 [(0, 1, 3%Q); (1, 2, 7%Q)].
 Proof.
   split; [|reflexivity]. apply in_flat_map. exists 2. split; [cbv; tauto|]. vm_compute. tauto.
